@@ -3,5 +3,5 @@
 D=/verif/seeded/$1; shift
 git -C /repo status --short | grep -v '^??' && { echo "/repo dirty"; exit 1; }
 git -C /repo apply $D/patch.diff || exit 1
-for c in "$@"; do /verif/check $c --no-evidence 2>&1 | grep -E "^VIOLATION|signature|^C[0-9]+ tier|INCONCL" | head -7; done
+for c in "$@"; do /verif/check $c --no-evidence 2>&1 | grep -a -E "^VIOLATION|signature|^C[0-9]+ tier|INCONCL" | head -7; done
 git -C /repo checkout -- .; git -C /repo status --short
